@@ -41,6 +41,10 @@ claimed = {
    text="Proof on the console encoder: the column sub-encoders run at most once each, in the fixed order time, level, name, caller, then the function column, each exactly when its key and encoder are set and the entry carries a value (call log with time stamps); one Fprint per collected column before the context; the message follows, preceded by the separator exactly when the line is non-empty, whenever its key is set; writeContext appends nothing when there is neither context nor field, otherwise the separator (when the line is non-empty) and exactly one well-formed JSON object (T-JSON automaton from start to accepting state) holding the context followed by the call-site fields with every namespace closed - rendered by a CLONE, the logger's own context encoder is not written (byte-level frame); the stack follows after a newline exactly when present and enabled; then the line ending. Clone/NewConsoleEncoder establish the fragment invariant of the embedded JSON encoder; pooled slice encoder truncated before Put.",
    note=BASE_NOTE + "The text of the columns is produced by fmt.Fprint over the values the sub-encoders appended (outside: only 'one Fprint per column, in order, separator between' is decided); the JSON context inherits C01's assumptions. 'Same fields as the JSON encoder would emit' holds because both go through the same addFields on a jsonEncoder - not a separate obligation.",
    ref="7 (C16)"),
+ "C02": dict(
+   text="Proof at the call level (which encoder method receives which value, in which order - not the decimal text): Field.AddTo unpacks the field union by type into exactly one ObjectEncoder call carrying the key and the value without loss (all 28 field types; casts over the full range, floats through their bit patterns, bool as Integer==1, times through time.Unix/In) and the constructors' int64(v) round-trips for every value of every integer width (lemmas); the JSON encoder's narrowing wrappers relay the sign-/zero-extended value and the right bit size (AddInt8..AddUintptr, AppendInt..AppendFloat32/Complex64), each keyed Add* writes the key then the value; EncodeEntry emits the metadata keys in the order level, time, name, caller, function, message with exactly the stated presence conditions, then the context bytes (iff non-empty), then the call-site fields (one AddTo per field, in order), closes the namespaces and only then writes the stack key; encodeError writes the message under the key, the causes under key+Causes exactly for error groups, the verbose form under key+Verbose only for a Formatter whose verbose text differs.",
+   note=BASE_NOTE + "Not decided here: text<->value round trips of strconv, time.Format, encoding/json, fmt and Duration.String (assumed dependencies; 'floats bit-for-bit from their shortest decimal' is strconv's contract); base64 text; equality with the in-memory map encoder (MapObjectEncoder is not under contract; the argument that both see the same call sequence is a paper step); the independent reference encoder of the property's oracle is a testing device and is not built. For a nil time/duration/name/caller sub-encoder the JSON encoder emits the default representation instead of omitting the part; only the level column is omitted with its encoder (as the code, the docs and TestJSONEmptyConfig agree).",
+   ref="7 (C02)"),
  "C07": dict(
    text="Proof of the derivation mechanisms with full frames: Logger.clone/With/Named/WithOptions/Sugar/Desugar write only the freshly allocated clone (*log == old(*log)), With(no fields) returns the receiver, Named joins with a dot exactly when both names are non-empty; Logger.check stamps the entry with the logger's own name and hands call-site fields on unchanged; every zap Core.With implementation (ioCore with the JSON or console encoder: a clone of the encoder with its own buffer gets exactly the new fields, the receiver's encoder and every pre-existing byte untouched; tee, sampler, hooked, level-filter, lazy, observer) is verified against the Core.With interface contract (result non-nil, no pre-existing Field, Core slice or byte array written), forwards exactly the given fields to the wrapped core and re-wraps it leaving the receiver unchanged; the observer's capacity-capped append leaves the parent's context array untouched (both append branches explored); the lazy core evaluates its With exactly once (sync.Once model) with the original fields.",
    note=BASE_NOTE + "Logger.WithLazy's option closure and the sugared With/Named/WithLazy wrappers are not yet under contract; the byte-level statement 'context bytes = parent bytes ++ enc(fields)' is part of the C01/C02 encoder contracts, not proved here. 'All orders of derivation and use' follows from the frames (no derivation writes a location reachable from another logger) - a paper step over the proved frames.",
